@@ -67,6 +67,10 @@ VARIANTS = [
       lambda nd: (setattr(nd.args, "defaults", [ast.Constant(1.0)]) or nd),
       note="mh_step's default correction is not zero (RW relies on the default)",
       expect_rule="C06.R1"),
+    V("c06_mh_key_reuse", "M", MK, "MHKernel._standard_transition",
+      *replace_expr("self._proposal_fn(key, model_state, step_size)",
+                    "self._proposal_fn(prng_key, model_state, step_size)"),
+      note="the user's proposal gets the parent key of the accept draw", expect_rule="C06.R4"),
     # ---- twins
     V("c06_t_doc_reworded", "T", MK, "MHProposal",
       lambda nd: isinstance(nd, ast.Expr) and isinstance(nd.value, ast.Constant)
